@@ -406,6 +406,8 @@ func c31(c *report.Check, thorough bool, only string) {
 			all = append(all, built{st: st, d: d})
 		}
 	}
+	// highest difficulty first: the first witness recorded for a signature is the most telling
+	sort.SliceStable(all, func(i, j int) bool { return all[i].d > all[j].d })
 	parallelFor(len(all), func(i int) { all[i].cases = buildPowCases(all[i].st, all[i].d) })
 	evalC := 0
 	accepted := 0
@@ -417,8 +419,9 @@ func c31(c *report.Check, thorough bool, only string) {
 			for _, pc := range b.cases {
 				evalC++
 				dec, err := pow.VerifySolution(pc.proof, params)
-				want, why := refPowAccept(pc.proof, b.d, powExpires, b.st.subjectOf, now)
+				verdict, why := refPowVerdict(pc.proof, b.d, powExpires, b.st.subjectOf, now)
 				got := err == nil
+				want := verdict == "accept" || (verdict == "either" && got)
 				cs := map[string]any{"style": b.st.name, "required_difficulty": b.d, "case": pc.name, "clock_offset_ns": int64(sh),
 					"stamp": pc.proof.GetSolution(), "pubkey": fmt.Sprintf("%x", pc.proof.GetPubKey()), "signature": fmt.Sprintf("%x", pc.proof.GetSignature()),
 					"stamp_leading_zero_bits": stampLZ(pc.proof.GetSolution()), "reference": why, "verify_error": errClass(err)}
@@ -538,7 +541,7 @@ func c31(c *report.Check, thorough bool, only string) {
 	c.Set("exhaustive", true)
 	c.Assume("spec/pow and util/hashcash read the clock through the harness clock (import rewrite of \"time\"); the clock is frozen at 2030-01-02T03:04:05Z and moved by exact offsets",
 		"allowed expiry window = 2 x Parameters.Expires ahead of now (the bound spec/pow applies; the statement does not give a number); expired = now strictly after the expiry second",
-		"crypto/ed25519 and crypto/sha256 are trusted; 'stamp hash' = SHA-256 of the presented stamp text",
+		"crypto/ed25519 and crypto/sha256 are trusted; 'stamp hash' = SHA-256 of the presented stamp text; a stamp spelled unusually (signed / zero-padded numbers, empty solution segment) whose own text meets every stated condition may be accepted or refused",
 		"GenerateSolution refuses difficulty 0 (hashcash.New turns 0 into 10, Solve(0) rejects it): no proof is produced, so the solver clause is vacuous there",
 		"hang guard: a solver call that does not return within 90 s (thorough 5 min; normal cost is milliseconds) is reported as producing no proof instead of blocking the check")
 }
